@@ -287,6 +287,12 @@ func sameValue(a, b AVal) bool {
 // runC08Copy: in every walker-mode run, no store into a cell reached from the cached value.
 func runC08Copy(c *Ctx, gname string) {
 	p := c.P
+	sharedReturners = map[string]bool{}
+	for _, fn := range p.Funcs {
+		if fn.Pkg != nil && strings.HasPrefix(fn.Pkg.Pkg.Path(), ModPath) && returnsMemoised(fn) {
+			sharedReturners[fnName(fn)] = true
+		}
+	}
 	var bad []string
 	n := 0
 	for _, w := range findWalkers(p) {
@@ -324,6 +330,10 @@ func runC08Copy(c *Ctx, gname string) {
 						continue
 					}
 					bad = append(bad, fmt.Sprintf("%s: append onto %s, a (re)slice of the cached per-type info: the appended elements are written into the array shared by all later calls", p.Pos(instrPos(e.Site)), shorten(inner, 100)))
+					continue
+				}
+				if h := keyRootHead(k0); sharedReturners[h] {
+					bad = append(bad, fmt.Sprintf("%s: store into the result of %s, which answers from a package-level memo: every caller is handed the same memory, so this write changes what all later and concurrent calls read", p.Pos(instrPos(e.Site)), h))
 					continue
 				}
 				if cachedRooted(k0) {
@@ -572,8 +582,105 @@ func cachedRooted(k string) bool {
 					return true
 				}
 			}
+			// a function that answers from a memo (a package-level map / sync.Map) hands the SAME memory to
+			// every caller: a store into its result is a store into shared state
+			if sharedReturners[head] {
+				return true
+			}
 			return false
 		}
 	}
 	return true
+}
+
+var sharedReturners = map[string]bool{}
+
+// returnsMemoised: some return value of fn can be what was loaded from a package-level map or a
+// package-level sync.Map (through type assertions, tuple extraction and phis).
+func returnsMemoised(fn *ssa.Function) bool {
+	if fn.Blocks == nil {
+		return false
+	}
+	seen := map[ssa.Value]bool{}
+	var from func(v ssa.Value, d int) bool
+	from = func(v ssa.Value, d int) bool {
+		if v == nil || seen[v] || d > 8 {
+			return false
+		}
+		seen[v] = true
+		switch x := v.(type) {
+		case *ssa.Phi:
+			for _, e := range x.Edges {
+				if from(e, d+1) {
+					return true
+				}
+			}
+		case *ssa.TypeAssert:
+			return from(x.X, d+1)
+		case *ssa.Extract:
+			return from(x.Tuple, d+1)
+		case *ssa.ChangeType:
+			return from(x.X, d+1)
+		case *ssa.UnOp:
+			if x.Op == token.MUL {
+				if a, ok := x.X.(*ssa.Alloc); ok { // a spilled result cell: what was stored into it
+					for _, r := range refs(a) {
+						if st, ok := r.(*ssa.Store); ok && st.Addr == ssa.Value(a) && from(st.Val, d+1) {
+							return true
+						}
+					}
+				}
+			}
+		case *ssa.Lookup:
+			if ld, ok := x.X.(*ssa.UnOp); ok && ld.Op == token.MUL {
+				if _, isG := ld.X.(*ssa.Global); isG {
+					return true
+				}
+			}
+		case *ssa.Call:
+			nm := calleeName(&x.Call)
+			if nm == "(*sync.Map).Load" || nm == "(*sync.Map).LoadOrStore" {
+				if len(x.Call.Args) > 0 {
+					if _, isG := x.Call.Args[0].(*ssa.Global); isG {
+						return true
+					}
+				}
+			}
+		}
+		return false
+	}
+	for _, b := range fn.Blocks {
+		if ret, ok := b.Instrs[len(b.Instrs)-1].(*ssa.Return); ok {
+			for _, r := range ret.Results {
+				if _, isSlice := r.Type().Underlying().(*types.Slice); !isSlice {
+					if _, isMap := r.Type().Underlying().(*types.Map); !isMap {
+						if _, isPtr := r.Type().Underlying().(*types.Pointer); !isPtr {
+							continue
+						}
+					}
+				}
+				if from(r, 0) {
+					return true
+				}
+			}
+		}
+	}
+	return false
+}
+
+// keyRootHead: the function whose result is the root of a memory key ("valid.F(args)[i].x" -> "valid.F").
+func keyRootHead(k string) string {
+	k = strings.TrimLeft(k, "&*")
+	i := strings.Index(k, "(")
+	if i <= 0 {
+		if strings.HasPrefix(k, "(") {
+			if j := strings.Index(k, ")."); j > 0 {
+				if l := strings.Index(k[j:], "("); l > 0 {
+					return k[:j+l]
+				}
+			}
+		}
+		return ""
+	}
+	return k[:i]
 }
